@@ -46,7 +46,7 @@ const instance = "3f2a8c1e-5b7d-4e9f-8a6b-1c2d3e4f5a6b"
 type users struct{}
 
 func (users) ReadUser(_ int, name string, _ bool) (defs.User, error) {
-	return defs.User{Name: name, Permissions: []string{"logon"}}, nil
+	return defs.User{Name: name, Permissions: []string{defs.LogonPermission}}, nil
 }
 func (users) WriteUser(int, defs.User) error          { return nil }
 func (users) DeleteUser(int, string) error            { return nil }
